@@ -551,8 +551,9 @@ def write_evidence(run, nviol, observed, outside, flaky, extra=None):
         "wall_s": round(time.time() - run.t0, 1),
         "violations": nviol,
     }
-    os.makedirs(os.path.join(VERIF, "evidence"), exist_ok=True)
-    with open(os.path.join(VERIF, "evidence", run.prop + ".json"), "w") as f:
+    evdir = os.environ.get("VERIF_EVIDENCE_DIR") or os.path.join(VERIF, "evidence")
+    os.makedirs(evdir, exist_ok=True)
+    with open(os.path.join(evdir, run.prop + ".json"), "w") as f:
         json.dump(ev, f, indent=1)
 
 
